@@ -1236,7 +1236,12 @@ def run():
             # ---- 4. TLC judges every recorded execution ------------------------------------------
             val, verdicts = judge(sc, [({k: v for k, v in t.items() if k in ("id", "kind", "obs")} if t["kind"] == "origins" else t)
                                        for t in traces])
-            bind = binding_selftest(sc, traces, verdicts)
+            bind_err = None
+            try:
+                bind = binding_selftest(sc, traces, verdicts)
+            except T.MachineryError as e:       # on a tree that violates the property the recorded
+                bind_err = e                    # traces may not contain a usable base trace: judged below
+                bind = {"error": str(e)}
             mark("4_trace_validation")
 
         counts = {}
@@ -1280,6 +1285,8 @@ def run():
                     evk[e["k"]] = evk.get(e["k"], 0) + 1
         sample = [e for e in traces[-2]["events"] if e["k"] in ("send", "nack", "rtx", "dec", "pli")][:10] \
             if traces[-2]["kind"] == "run" else []
+        if bind_err is not None and not rep.violations:
+            raise bind_err              # the self-test failed although nothing violates the property: machinery
         rep.coverage = {
             "states": sum(e.distinct for e in exh), "transitions": sum(e.generated for e in exh), "exhaustive": True,
             "model_depth": max(e.depth for e in exh),
